@@ -136,6 +136,14 @@ func (w *writer) Message() MessageWriter {
 
 // Free frees the writer and releases its internal resources.
 func (w *writer) Free() {
+	// Check the flags before closing, close returns an autoreleased writer to the pool,
+	// it must not be accessed afterwards.
+	auto := w.writerState != nil && (w.releaseState || w.releaseWriter)
+	if auto && w.err == nil {
+		w.close()
+		return
+	}
+
 	w.close()
 
 	if w.writerState == nil {
